@@ -114,18 +114,18 @@ func registerIntrinsics(e *Engine) {
 			return nil, true
 		}
 		if len(st.replay) > 0 {
-			st.PC = append(st.PC, c)
+			e.assertPC(st, c)
 			return nil, true
 		}
 		if v, ok := e.evalModel(st, c); ok && v == 1 {
-			st.PC = append(st.PC, c)
+			e.assertPC(st, c)
 			return nil, true
 		}
 		r, m := e.check(st, c, true)
 		if r == smt.Unsat {
 			panic(abort{"infeasible", "assumption"})
 		}
-		st.PC = append(st.PC, c)
+		e.assertPC(st, c)
 		st.Model = m
 		return nil, true
 	}
